@@ -6,7 +6,8 @@ VERIF = os.path.dirname(os.path.dirname(os.path.abspath(__file__)))
 d = sys.argv[1]
 props = sys.argv[2:]
 tier = os.environ.get('SEEDED_TIER', 'quick')
-for patch in sorted(glob.glob(os.path.join(d, 'patch*.diff'))):
+patches = [os.path.join(d, 'patch.diff')] if os.path.exists(os.path.join(d, 'patch.diff')) else sorted(glob.glob(os.path.join(d, 'patch*.diff')))
+for patch in patches:
     tmp = tempfile.mkdtemp(prefix='seeded-')
     try:
         shutil.copytree('/repo/src', tmp + '/src', ignore=shutil.ignore_patterns('__pycache__', '*.pyc'))
@@ -14,7 +15,7 @@ for patch in sorted(glob.glob(os.path.join(d, 'patch*.diff'))):
         if r.returncode != 0:
             print('%s: DOES NOT APPLY: %s' % (patch, (r.stdout + r.stderr)[:300]))
             continue
-        demo = patch.replace('patch', 'demo').replace('.diff', '.py')
+        demo = os.path.join(os.path.dirname(patch), os.path.basename(patch).replace('patch', 'demo').replace('.diff', '.py'))
         if os.path.exists(demo):
             env = dict(os.environ, PYTHONPATH=tmp + '/src')
             r1 = subprocess.run(['/venv/bin/python', '-W', 'ignore', demo], env=env, capture_output=True, text=True, cwd=tempfile.gettempdir())
